@@ -481,6 +481,29 @@ pub fn run(cfg: &Cfg, rep: &mut Report) {
             }
         }
     });
+    // ---- the `AUTO <Boolean>|ONCE` type of scpi-contrib: ONCE is character data, the booleans are 1/0, each reads back as itself
+    run_cases(cfg, "auto", 1, rep, |_rng, ctx| {
+        use scpi_contrib::scpi1999::util::Auto;
+        for (v, want) in [(Auto::Once, &b"ONCE"[..]), (Auto::Bool(true), b"1"), (Auto::Bool(false), b"0")] {
+            bump(ctx, 1);
+            ctx.nontrivial(hash_bytes(want));
+            match fmt(&v) {
+                Ok(t) if t == want => {
+                    let back = lib_tokens(&t).ok().and_then(|toks| toks.first().copied()).and_then(|tok| Auto::try_from(tok).ok());
+                    let same = match (&back, &v) {
+                        (Some(Auto::Once), Auto::Once) => true,
+                        (Some(Auto::Bool(a)), Auto::Bool(b)) => a == b,
+                        _ => false,
+                    };
+                    if !same {
+                        ctx.violation("C09:auto:text-does-not-read-back-as-the-same-value", jobj(&[("text", jbytes(&t))]));
+                    }
+                    ctx.count("auto.checked");
+                }
+                other => ctx.violation("C09:auto:text-differs", jobj(&[("want", jbytes(want)), ("got", jstr(&format!("{:?}", other.map(|t| show(&t)).map_err(|e| e.get_code()))))])),
+            }
+        }
+    });
     // ---- the text of a value does not depend on what the formatter already holds (a header, earlier data, an earlier
     //      unit) nor on the kind of formatter
     run_cases(cfg, "behind-other-output", cfg.n(10, 200_000, 8_000_000), rep, |rng, ctx| {
